@@ -93,6 +93,28 @@ def check(run, model, tier):
                  '' if nz else 'the self-clear is not guarded by total != 0: times=0 no longer means "forever"', node=cl.ast, obligation=True)
         ok = all(g.dominates(i, cl) for i in incs) and all(any(g.dominates(p, cl) for p in posts) or True for _ in [0])
         run.inst('COUNT.timer-loop', t, 'the increment precedes the termination test', ok, 'termination is tested before the activation is counted', node=cl.ast, obligation=True)
+    # ---- what the thread's decisions depend on: its own spec and its own locals, nothing else
+    n_tests = 0
+    steering = set(posts) | set(incs) | set(sleeps) | set(clears) | set(brks) | {n for n in g.nodes if n.kind == 'stmt' and isinstance(n.ast, (ast.Return, ast.Raise))}
+    for x in g.nodes:
+        if x.kind != 'test':
+            continue
+        if x is not h and not any(guarded_by_edge(g, r_, x, lab_) for r_ in steering for lab_ in ('true', 'false')):
+            continue        # a test that steers nothing the property is about (a diagnostic branch)
+        n_tests += 1
+        e = expand_locals(x.ast, t.node, params=t.params, observers=True)
+        foreign = []
+        for nm in ast.walk(e):
+            if isinstance(nm, ast.Name) and isinstance(nm.ctx, ast.Load) and nm.id not in t.params and nm.id not in local_defs(t.node) \
+                    and nm.id not in ('True', 'False', 'None') and not nm.id.isupper() and nm.id not in ('len', 'int', 'bool', 'isinstance', 'float'):
+                foreign.append(nm.id)
+        ok = not foreign
+        run.inst('COUNT.timer-loop', t, 'decision %s depends only on the source\'s own spec and counters' % norm(x.ast), ok,
+                 '' if ok else ('the timer thread decides %s from %s, which is not part of this timed source (its spec, its activation counter, its deferred flag): the source then '
+                                'ends, skips or repeats activations for reasons other than its own count, cancel_event/cancel_events or stop() - for example it dies when the '
+                                'active object has not been started yet, although "absent cancellation or stop" it must post exactly the requested number of times'
+                                % (norm(x.ast), ', '.join(sorted(set(foreign))))), node=x.ast, obligation=True)
+    run.floor('decisions in the timer thread', n_tests, 4)
     # ---- ORDER per iteration
     retests = [x for x in g.nodes if x.kind == 'test' and x is not h and 'is_set' in norm(x.ast)]
     run.floor('timer run-flag re-tests', len(retests), 1)
